@@ -21,6 +21,9 @@ def stateless_stage(rng):
         return ('json', gen.col_ref(rng, ['s', 't', 'js']))
     if r < 0.80:
         return ('json', None)          # the raw line again, after other operators added fields
+    if r < 0.84:
+        # a stateless operator by the property: the slice of a row depends on that row alone, in whatever order timestamps come
+        return ('timeslice', gen.DATE_EXPR, rng.choice([60, 300, 3600, 86400]) * 10**9, rng.choice([None, 'slice']))
     if r < 0.90:
         return ('logfmt', gen.col_ref(rng, ['s', 'lf']))
     return ('parse', rng.choice(['* *', 'a*', '*=*', '*']), ['p1', 'p2'][:rng.choice(['* *', 'a*', '*=*', '*']).count('*')] or ['p1'],
@@ -45,6 +48,8 @@ def writes(st):
         return {out[1]} if out is not None else {'_split'}
     if t in ('where',):
         return set()
+    if t == 'timeslice':
+        return {st[3] or '_timeslice'}
     return None   # json/logfmt write data-dependent keys, fields removes: handled separately
 
 
